@@ -1,5 +1,6 @@
 import Lean.Data.Json
 import MLPE.Eng
+import MLPE.Sem
 
 /-! Line-protocol front end of the engine model: lock-step replay of an implementation trace.
 
@@ -233,5 +234,27 @@ def lsStep (st : LS) (line : String) : LS × String :=
         | none => (st, "{\"en\":false}")
       else if k == "end" then (st, (endStatus st.s).compress)
       else (st, "{\"error\":\"unknown event\"}")
+
+end MLPE.Eng
+
+namespace MLPE.Eng
+open Lean
+
+/-- `sem` mode: one program per line → the declared outcome, root causes, demanded nodes, node applications -/
+def semLine (_ : Unit) (line : String) : Unit × String :=
+  match Json.parse line >>= parseProgram with
+  | .error e => ((), "{\"error\":\"" ++ e ++ "\"}")
+  | .ok P =>
+    let (r, st) := Sem.run P
+    let (oc, causes) : String × List String := match r with
+      | .ok v => ("value " ++ valStr v, [])
+      | .fail cs => ("fail", cs.map excStr)
+    let calls := st.calls.map fun (n, inv, kw) => s!"{n} {inv} " ++ "{" ++ kwStr kw ++ "}"
+    let vals := P.g.nodes.filterMap fun n => match st.memo n with
+      | some (.ok v) => some (s!"{n}", Json.str (valStr v))
+      | some (.fail _) => some (s!"{n}", Json.str "FAIL")
+      | none => none
+    ((), (Json.mkObj [("outcome", Json.str oc), ("causes", jsonStrs causes), ("calls", jsonStrs calls),
+                      ("demanded", toJson st.demanded), ("values", Json.mkObj vals)]).compress)
 
 end MLPE.Eng
